@@ -512,7 +512,6 @@ fn failing_opens(rng: &mut Rng, images: &[(Config, Vec<u8>, bool)], out: &mut Ou
                 expect_err = false;
             }
             2 => {
-                scen = "open-bad-length";
                 let newlen = match rng.below(8) {
                     0 => rng.range(1, 8),
                     1 => rng.range(9, 319),
@@ -523,6 +522,8 @@ fn failing_opens(rng: &mut Rng, images: &[(Config, Vec<u8>, bool)], out: &mut Ou
                     6 => data.len() as u64 + ps as u64 * rng.range(1, 5),
                     _ => rng.range(ps as u64, data.len() as u64),
                 } as usize;
+                // a shorter file is the accepted finding's scenario (F-C20-1); a longer one is a different scenario
+                scen = if newlen >= img.len() { "open-extended-length" } else { "open-bad-length" };
                 data.resize(newlen, 0);
                 detail = format!("\"new_len\":{newlen},\"old_len\":{}", img.len());
                 expect_err = false;
